@@ -4,7 +4,9 @@ import (
 	"bufio"
 	"context"
 	"encoding/json"
+	"errors"
 	"fmt"
+	"io"
 	"os"
 	"path/filepath"
 	"runtime"
@@ -52,11 +54,18 @@ func (s hsess) sshdMsg() string {
 	return fmt.Sprintf("Accepted publickey for user%d from 10.0.%d.%d port %d ssh2: ED25519 SHA256:abcdefghijklmnopqrstuvwxyz0123456789ABCDEFG", s.pid, s.pid/250, s.pid%250, 1024+s.pid%60000)
 }
 
+// bigEvents: the commands of a session carry a long command line, so that each UserAction is larger than PIPE_BUF
+var bigEvents bool
+
 func (s hsess) auditLines() []string {
 	hdr := func(i int) string { return fmt.Sprintf("msg=audit(%d.000:%d):", 1600000000+s.base+i, s.base+i) }
 	ls := []string{fmt.Sprintf("type=LOGIN %s pid=%d uid=0 old-auid=4294967295 auid=1000 tty=(none) old-ses=4294967295 ses=%s res=1", hdr(0), s.pid, s.ses)}
 	for i := 1; i <= s.k; i++ {
-		ls = append(ls, fmt.Sprintf("type=USER_CMD %s pid=%d uid=1000 auid=1000 ses=%s msg='cwd=\"/\" cmd=6C73 terminal=pts/0 res=success'", hdr(i), s.pid, s.ses))
+		cmd := "6C73"
+		if bigEvents {
+			cmd = strings.Repeat("6C73202D6C61202F7372762F646174612F", 420) // ~7 kB once decoded
+		}
+		ls = append(ls, fmt.Sprintf("type=USER_CMD %s pid=%d uid=1000 auid=1000 ses=%s msg='cwd=\"/\" cmd=%s terminal=pts/0 res=success'", hdr(i), s.pid, s.ses, cmd))
 	}
 	ls = append(ls, fmt.Sprintf("type=CRED_DISP %s pid=%d uid=0 auid=1000 ses=%s msg='op=PAM:setcred grantors=pam_unix acct=\"u\" exe=\"/usr/sbin/sshd\" hostname=h addr=1.2.3.4 terminal=ssh res=success'", hdr(s.k+1), s.pid, s.ses))
 	return ls
@@ -254,8 +263,55 @@ func runHandoffInProcess(ss []hsess, delaySshd, delayAudit int, rng *uint64, noi
 	return fmt.Sprintf("T:%d|%s", t, strings.Join(items, ";"))
 }
 
-func runHandoffDaemon(ss []hsess, delaySshd, delayAudit int, noise int) string {
-	d, err := startDaemon(true, true, "")
+// fifoOut: the events output is a FIFO whose reader (a log shipper) falls behind and reads in small pieces; the
+// commands produce events larger than PIPE_BUF while failed logins are written by the other pipeline
+func runHandoffDaemon(ss []hsess, delaySshd, delayAudit int, noise int, fifoOut bool) string {
+	out := ""
+	var collected []byte
+	var cmu sync.Mutex
+	readerDone := make(chan struct{})
+	var outR *os.File
+	if fifoOut {
+		odir, err := os.MkdirTemp("", "verif-hofifo")
+		if err != nil {
+			return "T:1|!start"
+		}
+		defer os.RemoveAll(odir)
+		out = filepath.Join(odir, "events-fifo")
+		if err := syscall.Mkfifo(out, 0o600); err != nil {
+			return "T:1|!start"
+		}
+		outR, err = os.OpenFile(out, os.O_RDONLY|syscall.O_NONBLOCK, 0)
+		if err != nil {
+			return "T:1|!start"
+		}
+		bigEvents = true
+		defer func() { bigEvents = false }()
+		go func(r *os.File) {
+			defer close(readerDone)
+			time.Sleep(250 * time.Millisecond) // the reader is behind: the pipe fills up
+			buf := make([]byte, 1024)
+			for {
+				n, err := r.Read(buf)
+				if n > 0 {
+					cmu.Lock()
+					collected = append(collected, buf[:n]...)
+					cmu.Unlock()
+				}
+				switch {
+				case err == nil:
+				case errors.Is(err, os.ErrClosed):
+					return
+				case err == io.EOF: // no writer at the moment
+					time.Sleep(500 * time.Microsecond)
+				default:
+					time.Sleep(200 * time.Microsecond)
+				}
+			}
+		}(outR)
+		defer outR.Close()
+	}
+	d, err := startDaemon(true, true, out)
 	if err != nil || d.sshdW == nil || d.auditW == nil {
 		if d != nil {
 			d.stop()
@@ -326,7 +382,14 @@ func runHandoffDaemon(ss []hsess, delaySshd, delayAudit int, noise int) string {
 	wg.Wait()
 	deadline := time.Now().Add(8*time.Second + time.Duration(want/2000)*time.Second)
 	for time.Now().Before(deadline) {
-		data, _ := os.ReadFile(d.outPath)
+		var data []byte
+		if fifoOut {
+			cmu.Lock()
+			data = append([]byte(nil), collected...)
+			cmu.Unlock()
+		} else {
+			data, _ = os.ReadFile(d.outPath)
+		}
 		if strings.Count(string(data), "\n") >= want {
 			break
 		}
@@ -343,7 +406,17 @@ func runHandoffDaemon(ss []hsess, delaySshd, delayAudit int, noise int) string {
 	if b, err := os.ReadFile("/etc/machine-id"); err == nil {
 		wantMID = strings.TrimSpace(string(b))
 	}
-	t, items := readEvents(d.outPath)
+	evPath := d.outPath
+	if fifoOut {
+		time.Sleep(50 * time.Millisecond)
+		outR.Close()
+		<-readerDone
+		evPath = filepath.Join(d.dir, "collected.log")
+		cmu.Lock()
+		os.WriteFile(evPath, collected, 0o600)
+		cmu.Unlock()
+	}
+	t, items := readEvents(evPath)
 	wantHost, wantMID = nodeName, machineID
 	return fmt.Sprintf("T:%d|%s", t, strings.Join(items, ";"))
 }
@@ -372,8 +445,8 @@ func init() {
 				}
 			}
 			var res string
-			if f[1] == "d" {
-				res = runHandoffDaemon(ss, ds, da, noise)
+			if f[1] == "d" || f[1] == "f" {
+				res = runHandoffDaemon(ss, ds, da, noise, f[1] == "f")
 			} else {
 				res = runHandoffInProcess(ss, ds, da, &rng, noise)
 			}
